@@ -10,7 +10,7 @@ use jxl_image::ImageHeader;
 use jxl_modular::Sample;
 use jxl_threadpool::JxlThreadPool;
 
-use crate::{ImageWithRegion, Reference, Region, Result, image::ImageBuffer};
+use crate::{Error, ImageWithRegion, Reference, Region, Result, image::ImageBuffer};
 
 #[derive(Debug)]
 enum BlendMode<'a> {
@@ -253,7 +253,18 @@ pub(crate) fn blend<S: Sample>(
 
             let base_grid_render = Arc::clone(&grid.image).run_with_image()?;
             let base_grid = base_grid_render.blend(Some(output_image_region), pool)?;
-            assert_eq!(base_grid.color_channels(), color_channels);
+            if base_grid.color_channels() != color_channels {
+                // Grayscale Modular frames have single color channel, while VarDCT frames always
+                // have three.
+                tracing::error!(
+                    base_color_channels = base_grid.color_channels(),
+                    color_channels,
+                    "Blending source has different number of color channels"
+                );
+                return Err(Error::NotSupported(
+                    "blending frames with different number of color channels",
+                ));
+            }
 
             if base_grid.regions_and_shifts()[idx].0.is_empty() {
                 clone_empty = true;
@@ -424,7 +435,16 @@ pub fn patch(
     use jxl_frame::data::PatchBlendMode;
 
     let color_channels = base_grid.color_channels();
-    assert_eq!(patch_ref_grid.color_channels(), color_channels);
+    if patch_ref_grid.color_channels() != color_channels {
+        tracing::error!(
+            patch_color_channels = patch_ref_grid.color_channels(),
+            color_channels,
+            "Patch source has different number of color channels"
+        );
+        return Err(Error::NotSupported(
+            "patch source with different number of color channels",
+        ));
+    }
     for target in &patch_ref.patch_targets {
         for (idx, blending_info) in std::iter::repeat_n(&target.blending[0], color_channels)
             .chain(&target.blending[1..])
